@@ -143,6 +143,45 @@ def do_job(job):
     return 'none'
 
 
+DDL_DML = [
+    'create table orders (id int, total float)', 'create table orders (id int, total float, customer text, note text)',
+    'create table orders (id serial, customer varchar(20))', 'create table orders (customer text primary key, id int)',
+    'create table if not exists orders (id int)', 'create table crm.orders (id int, x int)', 'create table items (id int, total float)',
+    'insert into orders (id, total) values (1, 2.5)', 'insert into orders (id, customer) values (1, \'a\'), (2, \'b\')',
+    'insert into orders select * from items', 'update orders set total = 3 where id = 1', 'update orders set customer = \'x\', id = 2',
+    'delete from orders where id = 1', 'delete from orders where customer = \'x\' and id in (1, 2)', 'drop table orders',
+    'drop table if exists orders', 'select id, total from orders where id = 1', 'select customer from orders order by id limit 2',
+]
+
+
+def ddl_dml_jobs():
+    """the same table names with DIFFERENT column sets / statement kinds: anything a call registers under the table name
+    (a shared MetaData, a cache keyed by name) shows up as a result that depends on what was rendered before"""
+    return [('render', sql, d) for sql in DDL_DML for d in RENDER_DIALECTS] + [('parse', sql, 'mindsdb') for sql in DDL_DML]
+
+
+def failing_family_jobs(rng, n_stmts):
+    """families of failing statements that stop in the same parser state on the same token type but are repaired by different
+    keywords (one token deleted at every position of a valid statement; the leading keyword pairs of every CREATE / SHOW /
+    DROP form with the object keyword forgotten): anything the error path memoises by state shows up as history dependence"""
+    c = [s for s in corpus_mod.load() if len(s) < 200]
+    picks = rng.sample(c, min(n_stmts, len(c)))
+    heads = [s for s in c if re.match(r'\s*(create|drop|show|alter|describe|retrain|finetune|evaluate)\b', s, flags=re.I)]
+    picks += rng.sample(heads, min(len(heads), n_stmts))
+    out = []
+    for s in picks:
+        words = s.split()
+        for i in range(min(len(words), 6)):
+            out.append(('parse', ' '.join(words[:i] + words[i + 1:]), 'mindsdb'))
+    # every statement that starts with a command word, with its second / third word (the object keyword) forgotten
+    for s in heads:
+        words = s.split()
+        for i in (1, 2):
+            if len(words) > i + 1:
+                out.append(('parse', ' '.join(words[:i] + words[i + 1:]), 'mindsdb'))
+    return sorted(set(out))
+
+
 def jobs_for(rng, n):
     c = corpus_mod.load()
     jobs = [('parse', t, 'mindsdb') for t in ('CREATE', 'SHOW', 'DROP', 'select * from t where', 'create model m predict',
@@ -158,7 +197,8 @@ def jobs_for(rng, n):
             jobs.append(('plan', rng.choice(PLAN_SQL), 'mindsdb'))
         else:
             jobs.append(('render', rng.choice([s for s in PLAN_SQL if 'nosuch' not in s]), rng.choice(RENDER_DIALECTS)))
-    return jobs + plan_jobs(rng, max(40, n // 5)) + render_name_jobs(rng, max(120, n // 4))
+    return jobs + plan_jobs(rng, max(40, n // 5)) + render_name_jobs(rng, max(120, n // 4)) + ddl_dml_jobs() + \
+        failing_family_jobs(rng, max(12, n // 40))
 
 
 def class_state_digest():
